@@ -16,14 +16,25 @@ META = {
         "(all under the journal lock) these are the necessary conditions for a batch to become visible all at once. "
         "(5) every multi-key read of a keyspace tree outside the meta keyspace (iter/range/prefix/len/is_empty/"
         "first_key_value/last_key_value — each a scan inside lsm-tree) passes the instant of a registered view "
-        "(SnapshotNonce.instant), never SeqNo::MAX or another raw number: a scan at MAX looks into half-applied batches."),
+        "(SnapshotNonce.instant), never SeqNo::MAX or another raw number: a scan at MAX looks into half-applied batches. "
+        "(6) nothing raises the visible counter past a batch that is still being applied: every lsm-tree entry point that "
+        "installs a new tree version (it draws a seqno from the shared generator and raises the shared visible counter: "
+        "flush, compact, major_compact, clear, ingestion finish; table re-derived from lsm-tree's MIR in the thorough tier) "
+        "and every direct raise of the visible counter is made under the journal lock or before the database is shared. "
+        "SEVEN call sites of the pinned tree are not (flush worker, compaction worker, major_compact, meta keyspace "
+        "create/remove/maintenance): demonstrated KNOWN FINDINGS (demos/c06_flush_publishes_demo.rs, five histories)."),
     "not_decided": [
         "the thread schedules themselves",
-        "lsm-tree advancing the visible counter on version changes, cross-keyspace read atomicity inside lsm-tree",
+        "cross-keyspace read atomicity inside lsm-tree (how a super version is chosen for an instant)",
         "single-key point reads Keyspace::get/contains_key/size_of read at SeqNo::MAX by design: one key cannot witness half a batch within one call",
     ],
     "assumptions": ["SequenceNumberCounter::{next,fetch_max,get} are atomic; the tree exposes to a read at instant i exactly versions with seqno < i"],
 }
+
+# lsm-tree entry points that install a new tree version with a fresh seqno (SuperVersions::upgrade_version*); reviewed
+# against lsm-tree 's source, re-derived from its MIR in the thorough tier (cross()). rotate_memtable is NOT one: it
+# re-publishes the current version's seqno.
+VERSION_CHANGING_TABLE = ("flush", "compact", "major_compact", "clear", "drop_range", "register_tables", "finish")
 
 SEQ_ARG = {"write_raw": 5, "write_clear": 2, "write_batch": 3, "insert": 3, "remove": 2, "remove_weak": 2, "publish": 1}
 
@@ -172,3 +183,90 @@ def run(ctx):
             ctx.ob("R-C06.5", fn, "scan-%s#%d-at-view-instant" % (leaf, sum(1 for bb, tt in C05.tree_read_calls(fn) if bb < b and A.cname(tt) == A.cname(t)) + 1), ok,
                    "tree.%s reads at %s" % (leaf, ", ".join(A.tstr(x)[:80] for x in terms)) + ("" if ok else " — not the instant of a registered view: the scan looks into batches that are still being applied (seqno drawn, not yet published)"), fn.loc(b))
     ctx.floor("R-C06.5", "multi-key tree reads outside the meta keyspace", nscan, 12)
+
+    # ---- R-C06.6 nothing raises the visible counter past a batch that is still being applied.
+    # Every lsm-tree entry point that installs a new tree version draws a seqno from the SHARED generator and raises the
+    # SHARED visible counter to it (SuperVersions::upgrade_version: `visible_seqno.fetch_max(seqno.next() + 1)`; thorough
+    # tier re-derives this table from lsm-tree's own MIR). A batch draws its seqno and applies its items under the journal
+    # lock (R-C14.1). So such an entry point may only be called while the journal lock is held, or before the database is
+    # shared (recovery / creation). (keyspaces.write is NOT enough: a batch takes keyspaces.read only after drawing its seqno.)
+    VERSION_CHANGING = VERSION_CHANGING_TABLE
+    NOT_SHARED_YET = ("db::Database::recover", "db::Database::create_new", "recovery::recover_sealed_memtables", "recovery::recover_keyspaces")
+    nvc = 0
+    for fid, fn in sorted(F.fns.items()):
+        if fid in NOT_SHARED_YET:
+            continue
+        for b, t in fn.calls():
+            n = A.cname(t)
+            leaf = n.rsplit("::", 1)[-1]
+            is_tree = ("AbstractTree" in n and leaf in VERSION_CHANGING) or (leaf == "finish" and "Ingestion" in n and n.startswith("lsm_tree::"))
+            # a direct raise of the visible counter that is not SnapshotTracker::publish (whose callers R-C06.1 / R-C14.1 cover)
+            if n == "lsm_tree::SequenceNumberCounter::fetch_max" and fid != R.PUBLISH and fid != "snapshot_tracker::SnapshotTracker::set":
+                recv = ctx.og(fn).of_operand(t["args"][0])
+                if any(x.k == "field" and x.a[1] == "visible_seqno" for x in A.walk(recv)):
+                    is_tree = True
+                    leaf = "visible_seqno.fetch_max"
+            if not is_tree:
+                continue
+            nvc += 1
+            ctx.count_sites()
+            held = None
+            for g in R.j_guards(ctx, fn):
+                if A.must_held_at(fn, g, b)[0]:
+                    held = "the journal lock"
+            ctx.ob("R-C06.6", fn, "version-change-%s-excluded-from-in-flight-batches" % leaf, held is not None,
+                   "tree.%s (new tree version: raises the shared visible counter) is called under %s" % (leaf, held) if held
+                   else "tree.%s installs a new tree version — lsm-tree draws a seqno from the shared generator and raises the shared visible counter to it — without the journal lock: when it completes between two applies of a batch that drew its seqno earlier, a snapshot opened now sees the applied half of the batch" % leaf,
+                   fn.loc(b))
+    ctx.floor("R-C06.6", "version-changing lsm-tree calls outside recovery", nvc, 8)
+
+
+
+def cross(ctx, D):
+    """thorough tier: re-derive VERSION_CHANGING_TABLE from the pinned lsm-tree's own MIR (D): the AbstractTree methods of
+    AnyTree (and default methods calling them) and the ingestion finishers that reach SuperVersions::upgrade_version*"""
+    from .. import core
+    dctx = core.Ctx("C06", D, ctx.cfg, "thorough")
+    cg = dctx.cg
+    target = {k for k in D.fns if k.startswith("version::super_version::SuperVersions::upgrade_version")}
+    ctx.ob("R-C06.6x", "<lsm_tree>", "upgrade_version-present", bool(target), "lsm-tree has SuperVersions::upgrade_version* (%d)" % len(target), kind="anchor")
+    if not target:
+        return
+    # it is there that the shared visible counter is raised
+    raises = False
+    for k in target:
+        f = D.fns[k]
+        for b, t in f.calls():
+            if A.cname(t).endswith("SequenceNumberCounter::fetch_max"):
+                raises = True
+    ctx.ob("R-C06.6x", "<lsm_tree>", "upgrade_version-raises-visible-counter", raises, "upgrade_version_with_seqno does visible_seqno.fetch_max(seqno + 1)" if raises else "lsm-tree's upgrade_version no longer raises the visible counter: R-C06.6's premise changed, review the rule")
+    reach = set()
+    for k in D.fns:
+        if k.startswith("<any_tree::AnyTree as abstract_tree::AbstractTree>::") and cg.reaches(k, target):
+            reach.add(k.rsplit("::", 1)[-1])
+    changed = True
+    while changed:
+        changed = False
+        for k, f in D.fns.items():
+            if k.startswith("abstract_tree::AbstractTree::") and f.kind != "closure":
+                m = k.rsplit("::", 1)[-1]
+                if m in reach:
+                    continue
+                for b, t in f.calls():
+                    n = A.cname(t)
+                    if "AbstractTree" in n and n.rsplit("::", 1)[-1] in reach:
+                        reach.add(m)
+                        changed = True
+                        break
+    fin = any(cg.reaches(k, target) for k in D.fns if k.endswith("::finish") and "ngestion" in k)
+    called = set()
+    for fid, fn in ctx.F.fns.items():
+        for b, t in fn.calls():
+            n = A.cname(t)
+            if "AbstractTree" in n:
+                called.add(n.rsplit("::", 1)[-1])
+    want = (reach & called) | ({"finish"} if fin else set())
+    have = (set(VERSION_CHANGING_TABLE) & called) | ({"finish"} if "finish" in VERSION_CHANGING_TABLE else set())
+    ctx.ob("R-C06.6x", "<lsm_tree>", "version-changing-table-matches-lsm-tree", want == have,
+           "reviewed table %s = methods of the pinned lsm-tree that reach upgrade_version among those fjall calls" % sorted(have) if want == have
+           else "table %s vs lsm-tree %s: review R-C06.6's VERSION_CHANGING_TABLE" % (sorted(have), sorted(want)))
